@@ -123,6 +123,15 @@ func knownSubID(w *world, out []byte, name string) string {
 func runConn(p *Plan, o *obs, srv *rpc.Server) {
 	w := o.w
 	conn := newSimConn(w.start, p.ReadCap)
+	// bulk notification runs: size the wire record once instead of growing it 40 times
+	for ui := range p.Units {
+		for ei := range p.Units[ui].Entries {
+			if e := &p.Units[ui].Entries[ei]; e.Method == "sub" && e.Pre > 1000 {
+				conn.out = make([]byte, 0, (e.Pre+16)*176)
+				conn.writes = make([]wrec, 0, e.Pre+64)
+			}
+		}
+	}
 	o.conn = conn
 	served := make(chan struct{})
 	worldDone := make(chan struct{})
@@ -246,12 +255,22 @@ func runHTTP(p *Plan, o *obs, srv *rpc.Server) {
 	w.sched.Run()
 }
 
+// clip keeps the head and the tail of a long wire dump.
+func clip(b []byte) []byte {
+	if len(b) <= 6000 {
+		return b
+	}
+	out := append([]byte{}, b[:3000]...)
+	out = append(out, []byte(fmt.Sprintf("\n... [%d bytes omitted] ...\n", len(b)-6000))...)
+	return append(out, b[len(b)-3000:]...)
+}
+
 func dumpObs(p *Plan, o *obs) string {
 	var b bytes.Buffer
 	pb, _ := json.Marshal(p)
 	fmt.Fprintf(&b, "plan: %s\n", pb)
 	if o.conn != nil {
-		fmt.Fprintf(&b, "wire out (%d writes, %d rejected after close, closedAt=%d):\n%s\n", len(o.conn.writes), o.conn.late, o.conn.closedAt, o.conn.out)
+		fmt.Fprintf(&b, "wire out (%d writes, %d rejected after close, closedAt=%d):\n%s\n", len(o.conn.writes), o.conn.late, o.conn.closedAt, clip(o.conn.out))
 	}
 	for i, h := range o.https {
 		fmt.Fprintf(&b, "http[%d] start=%d done=%v/%d status=%d writes=%v body:\n%s\n", i, h.startAt, h.done, h.doneAt, h.rec.status, h.rec.writes, h.rec.out)
